@@ -29,7 +29,14 @@ Open Scope string_scope.
 Theorem C18_default_off : requested_handlers [] = Some (["ar"; "jar"; "javadoc"; "gzip"; "pyc"; "zip"], false).
 Proof. exact default_selection. Qed.
 
+(* the regenerated magic-number table classifies the first and last magic of every release series as CPython's
+   history does (version and header length): in particular 3230 is Python 3.3 and 3250 is 3.4, 3379 has a
+   12-byte and 3390 a 16-byte header *)
+Theorem C18_release_magics : forallb release_row_ok release_magics = true.
+Proof. exact release_magics_classified. Qed.
+
 Print Assumptions C18_layout.
 Print Assumptions C18_timestamp.
 Print Assumptions C18_idempotent.
 Print Assumptions C18_default_off.
+Print Assumptions C18_release_magics.
